@@ -33,7 +33,7 @@ ASSUMPTIONS = [
     "CodeNotFoundError/ImportError for absolute references to non-existing code are clean refusals",
     "exceptions raised by calling user value expressions (x=fn(...)) belong to the user, not to ptera",
     "exceptions raised inside importlib/codefind while looking up a /module/path reference count as 'not found'",
-    "a <=40-character string that produces no result within 5 s (normal: <1 ms) is reported as non-termination",
+    "a <=40-character string that produces no result within 2 s of CPU time (normal: <1 ms) is reported as non-termination",
 ]
 
 # --- fixed environment -----------------------------------------------------------------
@@ -169,6 +169,10 @@ def check_string(s, rec=None, must_refuse=False, overridable_only=False, only_pl
         S.parse(s)
     except _Hang:
         raise
+    except MemoryError as e:
+        e.__traceback__ = None  # release the frames holding the runaway allocation
+        raise PropertyViolation("termination", f"compiling {s!r} exhausted the memory limit (runaway allocation)",
+                                extra={"bucket": "hang"}) from None
     except BaseException as e:
         bad = classify_compile(e)
         if bad:
@@ -182,6 +186,10 @@ def check_string(s, rec=None, must_refuse=False, overridable_only=False, only_pl
             S.select(s, env=ENV)
         except _Hang:
             raise
+        except MemoryError as e:
+            e.__traceback__ = None
+            raise PropertyViolation("termination", f"compiling {s!r} exhausted the memory limit (runaway allocation)",
+                                    extra={"bucket": "hang"}) from None
         except BaseException as e:
             bad = classify_compile(e)
             if bad:
@@ -242,16 +250,17 @@ def check_string(s, rec=None, must_refuse=False, overridable_only=False, only_pl
 
 def guarded(s, rec, **kw):
     """check_string under the hang guard."""
-    signal.signal(signal.SIGALRM, _on_alarm)
-    signal.setitimer(signal.ITIMER_REAL, 5.0)
+    # CPU time, not wall-clock time (see vlib.prorun.time_limit)
+    signal.signal(signal.SIGPROF, _on_alarm)
+    signal.setitimer(signal.ITIMER_PROF, 2.0)
     try:
         return check_string(s, rec, **kw)
     except _Hang:
         raise PropertyViolation(
-            "termination", f"compiling {s!r} produced no result within 5 s", extra={"bucket": "hang"}
+            "termination", f"compiling {s!r} produced no result within 2 s of CPU time", extra={"bucket": "hang"}
         )
     finally:
-        signal.setitimer(signal.ITIMER_REAL, 0)
+        signal.setitimer(signal.ITIMER_PROF, 0)
 
 
 # --- semantic faults --------------------------------------------------------------------
@@ -489,8 +498,10 @@ def shard(cfg):
                 kw = {"only_plain": True} if (k == L - 1 and L >= 5) else {}
                 run_one(first + "".join(rest), **kw)
                 n += 1
-                if len(viol) > 25:
-                    break
+                if len(viol) > 25 or "hang" in viol:
+                    break  # (every further non-terminating string would cost the full CPU limit)
+            if "hang" in viol:
+                break
         rec.count("exhaustive_strings", n)
     elif cfg["mode"] == "short":
         run_one("")
